@@ -564,7 +564,29 @@ def apiCall (E : Env) (p : Path) (args : List GoVal) : Res (ThisObs × List View
   caller: every path invokes the callee exactly once – catchPanic turns an exception into the returned
   error, nothing is retried (otto.go:556-561 returns the error of the special `this == nil` path). -/
 
+/-- the values the probe can throw (a fixed global value of each kind) -/
+inductive ThrowKind
+  | refProto      -- ReferenceError.prototype
+  | errProto      -- Error.prototype
+  | rangeErr      -- new RangeError('m')
+  | emptyErr      -- new Error()
+  | plainObj      -- ({a:1})
+  | num | null | undef | bool | str          -- 5, null, undefined, true, 's'
+  | fn            -- function f(){}
+  | arr           -- [1,2]
+  | created       -- Object.create(TypeError.prototype)
+  | custom        -- an instance of a constructor whose prototype is an Error (name 'MyErr', message 'mm')
+deriving DecidableEq, Repr, Inhabited
+
+/-- the text of the error the caller gets: ToString of the thrown value (§15.11.4.4 for Error objects);
+    spaces written as `_` -/
+def ThrowKind.text : ThrowKind → String
+  | .refProto => "ReferenceError" | .errProto => "Error" | .rangeErr => "RangeError:_m" | .emptyErr => "Error"
+  | .plainObj => "[object_Object]" | .num => "5" | .null => "null" | .undef => "undefined" | .bool => "true"
+  | .str => "s" | .fn => "function_f(){}" | .arr => "1,2" | .created => "TypeError" | .custom => "MyErr:_mm"
+
 inductive Exit
+  | throwKind (k : ThrowKind)   -- throw that value (every invocation)
   | ret              -- return a description of (this, arguments)
   | throwTypeError   -- throw new TypeError("t:" + this + ":" + count)
   | throwOnce        -- throw new Error(…) on the first invocation only, return afterwards
@@ -576,6 +598,7 @@ inductive Outcome
   | retObject                                        -- `new`: the constructed object
   | throwErr (cls : String) (this : ThisObs) (n : Nat)
   | throwValue (this : ThisObs)
+  | threw (text : String)                            -- an exception whose value converts to that text
 deriving DecidableEq, Repr, Inhabited
 
 def isNewPath : Path → Bool
@@ -585,6 +608,7 @@ def isNewPath : Path → Bool
 /-- the probe's n-th invocation (n counted from 1) -/
 def exitOf (b : Exit) (isNew : Bool) (n : Nat) (t : ThisObs) (vs : List View) : Outcome :=
   match b with
+  | .throwKind k => .threw k.text
   | .ret => if isNew then .retObject else .ret t vs
   | .throwTypeError => .throwErr "TypeError" t n
   | .throwOnce => if n = 1 then .throwErr "Error" t n else (if isNew then .retObject else .ret t vs)
@@ -653,6 +677,11 @@ inductive ApiCase
   | callTwoStatements           -- vm.Call("f(); g", nil, 7)
   | callTwoStatementsThis       -- vm.Call("f(); g", 1, 7)
   | callExprStatement           -- vm.Call("g //", nil, 7)
+  | runThrowToStringHostThrows  -- vm.Run("throw {toString: hostFn}"), hostFn does panic(vm.MakeTypeError("x"))
+  | setZeroObject               -- vm.Set("zo", otto.Object{})
+  | setPtrZeroObject            -- vm.Set("zo", &otto.Object{})
+  | exportStringObject | exportNumberObject | exportFunction | exportDate
+                                -- Export of new String("ab"), new Number(5), function(){}, new Date(0)
 deriving DecidableEq, Repr, Inhabited
 
 inductive ApiOut
@@ -686,5 +715,34 @@ def apiModel : ApiCase → ApiOut
   | .callTwoStatements => .text "G/fundefined,g7"   -- len(program.body) != 1: general path
   | .callTwoStatementsThis => .text "G/fundefined,g7"
   | .callExprStatement => .text "G/g7"
+  | .runThrowToStringHostThrows => .goPanic   -- catchPanic's inner recover keeps only *exception; a host panic(Value) escapes
+  | .setZeroObject => .goPanic                -- toValue: `case Object: … value.object` is nil, the stash write dereferences it
+  | .setPtrZeroObject => .goPanic
+  | .exportStringObject => .text "O(,30,s:61,31,s:62)"   -- "Object -> map[string]interface{}" of the own enumerable properties
+  | .exportNumberObject => .text "O()"
+  | .exportFunction => .text "O()"
+  | .exportDate => .text "O()"
+
+/-! ### arithmetic on Go values set into the runtime: `vm.Set("a", g1); vm.Set("b", g2); vm.Run("a op b")`
+    (evaluate.go calculateBinaryExpression, modelled in C05.binNum) read back with Export / ToFloat / ToString -/
+
+def primOf : JS → Option Val
+  | .prim v => some v
+  | _ => none
+
+/-- the Value `a op b` evaluates to, for non-string primitives -/
+def arith (E : Env) (op : OttoVerif.C05.BinOp) (g1 g2 : GoVal) : Res Val :=
+  (toValue g1).bind fun j1 => (toValue g2).bind fun j2 =>
+    match primOf j1, primOf j2 with
+    | some x, some y => .ok (OttoVerif.C05.binNum E op x y)
+    | _, _ => .err
+
+/-! ### Copy(): a host function running on a copy gets the copy as FunctionCall.Otto
+    (otto.go Copy: `out.runtime.otto = out`; type_function.go: `Otto: rt.otto`) -/
+inductive Runtime | template | copy
+deriving DecidableEq, Repr, Inhabited
+
+def hostOttoOnCopy : Reentry → Runtime
+  | _ => .copy
 
 end OttoVerif.C15
